@@ -81,6 +81,11 @@ func selfTest(r *core.Run) {
 	}
 	der("sequence", vArr(vInt("1"), vInt("-129"), vInt("65536")), []int{1, -129, 65536})
 	der("sequence of 256", vRepArr(256), make([]int, 256))
+	seq := make([]int, 257)
+	for i := range seq {
+		seq[i] = seqElem(i)
+	}
+	der("sequence of 257 distinct integers", vSeqArr(257), seq)
 	// REAL: X.690 8.5.7 base 2, check by evaluating the definition on our own octets
 	for _, f := range []float64{0.5, 1.5, -4.1, math.SmallestNonzeroFloat64, math.MaxFloat64, 1e-45, 100000} {
 		for _, e := range berReal(f, true) {
